@@ -42,3 +42,7 @@ Fixpoint attrs_only (f : pystr -> pystr) (n : xnode) : xnode :=
   | XT x => XT x
   | XE name attrs kids => XE name (map (fun kv => (fst kv, f (snd kv))) attrs) (map (attrs_only f) kids)
   end.
+
+(** the protected elements named by the property *)
+Definition protected_names : list pystr :=
+  [s "markup"; s "literalLayout"; s "objectName"; s "attributeName"; s "para"].
